@@ -4,9 +4,10 @@
    (Payment incl. CloseRemainderTo) and ledger/apply/keyreg.go (Keyreg).
    Programs run against the overlay in a state+error monad [M]: an error keeps the state
    reached so far (the Go code has already written to the child cow at that point).
+   ledger/apply/asset.go (AssetConfig, AssetTransfer with takeOut / putIn, AssetFreeze) over
+   ledger/eval/cow_creatables.go and assetcow.go are transcribed as well.
    Application calls, state proofs and heartbeats are NOT modelled in this version (kind
-   [BOther] = "unknown transaction type" error path only); asset transactions: see
-   EvalAssets (not yet part of this version).  No proofs in this file. *)
+   [BOther] = "unknown transaction type" error path only).  No proofs in this file. *)
 From Coq Require Import NArith List Bool.
 From Verif.model Require Import Overflow EvalCow.
 Import ListNotations.
@@ -33,6 +34,19 @@ Definition m_checkdup (P : params) (rnd txid sender lease : N) : M unit :=
            | None => (c, Ok tt)
            end.
 
+Definition m_get_params (a i : N) : M (option aparams) := fun c => (c, Ok (get_params c a i)).
+Definition m_get_holding (a i : N) : M (option holding) := fun c => (c, Ok (get_holding c a i)).
+Definition m_put_params (a i : N) (p : aparams) : M unit := fun c => (put_params_delta c a i (DSome p), Ok tt).
+Definition m_put_holding (a i : N) (h : holding) : M unit := fun c => (put_holding_delta c a i (DSome h), Ok tt).
+(* DeleteAssetParams / DeleteAssetHolding: "not found in deltas" unless this cow has the account *)
+Definition m_del_params (a i : N) : M unit :=
+  fun c => if in_mods c a then (put_params_delta c a i DDel, Ok tt) else (c, Err E_APPLY).
+Definition m_del_holding (a i : N) : M unit :=
+  fun c => if in_mods c a then (put_holding_delta c a i DDel, Ok tt) else (c, Err E_APPLY).
+Definition m_set_creatable (i : N) (v : option N) : M unit := fun c => (set_creatable c i v, Ok tt).
+Definition m_get_creator (i : N) : M (option N) := fun c => (c, Ok (get_creator c i)).
+Definition m_counter : M N := fun c => (c, Ok (counter c)).
+
 Notation "x <- m ;; k" := (bind m (fun x => k)) (at level 61, m at next level, right associativity).
 Notation "m ;;; k" := (bind m (fun _ => k)) (at level 61, right associativity).
 
@@ -54,6 +68,9 @@ Record env := mkEnv {
 Inductive body :=
 | BPay (rcv amt closeto : N)
 | BKeyreg (votepk selpk sppk vfirst vlast vkd : N) (nonpart : bool)
+| BAcfg (asset : N) (p : aparams)
+| BAxfer (asset amt asender rcv closeto : N)
+| BAfrz (asset acct : N) (frozen : bool)
 | BOther.
 
 (* a signed transaction as the evaluator sees it.  [t_wf] is the verdict of
@@ -177,12 +194,123 @@ Definition keyreg (E : env) (sender fee votepk selpk sppk vfirst vlast vkd : N) 
     let elig := if (p_goonline P <=? fee) && p_payouts P then true else a_elig record in
     m_put sender (set_part record Online elig hb votepk selpk sp vfirst vlast vkd).
 
+(* ------------------------------------------------------------------ assets *)
+Definition some_or_fail {A} (o : option A) : M A := match o with Some a => ret a | None => fail E_APPLY end.
+
+(* apply/asset.go getParams *)
+Definition asset_params (i : N) : M (aparams * N) :=
+  cr <- m_get_creator i ;;
+  creator <- some_or_fail cr ;;
+  p <- m_get_params creator i ;;
+  params <- some_or_fail p ;;
+  ret (params, creator).
+
+Definition sat_inc (n : N) : N := addsat 64 n 1.
+Definition sat_dec (n : N) : N := subsat 64 n 1.
+
+Definition asset_config (E : env) (sender asset : N) (cp : aparams) (ctr : N) : M unit :=
+  if asset =? 0 then
+    record <- m_lookup sender ;;
+    let newidx := (ctr + 1) mod 2 ^ 64 in
+    present <- m_get_params sender newidx ;;
+    guard (match present with Some _ => false | None => true end) E_APPLY ;;;
+    guard (negb ((0 <? p_maxassets (e_P E)) && (p_maxassets (e_P E) <=? a_assets record))) E_APPLY ;;;
+    m_put sender (set_asset_counts record (sat_inc (a_assetparams record)) (sat_inc (a_assets record))) ;;;
+    m_put_params sender newidx cp ;;;
+    m_put_holding sender newidx (mkH (ap_total cp) false) ;;;
+    m_set_creatable newidx (Some sender)
+  else
+    pc <- asset_params asset ;;
+    let '(params, creator) := pc in
+    guard (negb (ap_manager params =? 0) && (sender =? ap_manager params)) E_APPLY ;;;
+    if ap_is_zero cp then
+      record <- m_lookup creator ;;
+      guard (negb (a_assets record =? 0)) E_APPLY ;;;
+      guard (negb (a_assetparams record =? 0)) E_APPLY ;;;
+      h <- m_get_holding creator asset ;;
+      guard ((match h with Some hh => h_amount hh | None => 0 end) =? ap_total params) E_APPLY ;;;
+      m_put creator (set_asset_counts record (sat_dec (a_assetparams record)) (sat_dec (a_assets record))) ;;;
+      m_set_creatable asset None ;;;
+      m_del_holding creator asset ;;;
+      m_del_params creator asset
+    else
+      m_put_params creator asset
+        (mkAP (ap_total params) (ap_dfrozen params)
+              (if ap_manager params =? 0 then 0 else ap_manager cp)
+              (if ap_reserve params =? 0 then 0 else ap_reserve cp)
+              (if ap_freeze params =? 0 then 0 else ap_freeze cp)
+              (if ap_clawback params =? 0 then 0 else ap_clawback cp)
+              (ap_extra params)).
+
+Definition take_out (a asset amount : N) (bypass : bool) : M unit :=
+  if amount =? 0 then ret tt else
+    h <- m_get_holding a asset ;;
+    hh <- some_or_fail h ;;
+    guard (negb (h_frozen hh && negb bypass)) E_APPLY ;;;
+    let '(v, o) := osub 64 (h_amount hh) amount in
+    if o then fail E_APPLY else m_put_holding a asset (mkH v (h_frozen hh)).
+
+Definition put_in (a asset amount : N) (bypass : bool) : M unit :=
+  if amount =? 0 then ret tt else
+    h <- m_get_holding a asset ;;
+    hh <- some_or_fail h ;;
+    guard (negb (h_frozen hh && negb bypass)) E_APPLY ;;;
+    let '(v, o) := oadd 64 (h_amount hh) amount in
+    if o then fail E_APPLY else m_put_holding a asset (mkH v (h_frozen hh)).
+
+Definition asset_transfer (E : env) (sender asset amt asender rcv closeto : N) : M unit :=
+  sc <- (if asender =? 0 then ret (sender, false)
+         else pc <- asset_params asset ;;
+              guard (negb (ap_clawback (fst pc) =? 0) && (sender =? ap_clawback (fst pc))) E_APPLY ;;;
+              ret (asender, true)) ;;
+  let '(source, clawback) := sc in
+  when ((amt =? 0) && (rcv =? source) && negb clawback)
+       (h <- m_get_holding source asset ;;
+        match h with
+        | Some _ => ret tt
+        | None =>
+          pc <- asset_params asset ;;
+          record <- m_lookup source ;;
+          guard (negb ((0 <? p_maxassets (e_P E)) && (p_maxassets (e_P E) <=? a_assets record))) E_APPLY ;;;
+          m_put source (set_asset_counts record (a_assetparams record) (sat_inc (a_assets record))) ;;;
+          m_put_holding source asset (mkH 0 (ap_dfrozen (fst pc)))
+        end) ;;;
+  take_out source asset amt clawback ;;;
+  put_in rcv asset amt clawback ;;;
+  if closeto =? 0 then ret tt else
+    guard (negb clawback) E_APPLY ;;;
+    record <- m_lookup source ;;
+    guard (negb (a_assets record =? 0)) E_APPLY ;;;
+    own <- m_get_params source asset ;;
+    guard (match own with Some _ => false | None => true end) E_APPLY ;;;
+    h <- m_get_holding source asset ;;
+    hh <- some_or_fail h ;;
+    dst <- m_get_params closeto asset ;;
+    let bypass := match dst with Some _ => true | None => false end in
+    take_out source asset (h_amount hh) bypass ;;;
+    put_in closeto asset (h_amount hh) bypass ;;;
+    h2 <- m_get_holding source asset ;;
+    guard ((match h2 with Some x => h_amount x | None => 0 end) =? 0) E_APPLY ;;;
+    m_put source (set_asset_counts record (a_assetparams record) (sat_dec (a_assets record))) ;;;
+    m_del_holding source asset.
+
+Definition asset_freeze (sender asset acct : N) (frozen : bool) : M unit :=
+  pc <- asset_params asset ;;
+  guard (negb (ap_freeze (fst pc) =? 0) && (sender =? ap_freeze (fst pc))) E_APPLY ;;;
+  h <- m_get_holding acct asset ;;
+  hh <- some_or_fail h ;;
+  m_put_holding acct asset (mkH (h_amount hh) frozen).
+
 (* ------------------------------------------------------------------ applyTransaction *)
-Definition apply_transaction (E : env) (tx : txn) : M adata :=
+(* [ctr] = cow.Counter() taken by transaction() before the call *)
+Definition apply_transaction (E : env) (tx : txn) (ctr : N) : M adata :=
   ad <- take_fee E tx ad0 ;;
   rekey tx ;;;
   match t_body tx with
   | BPay rcv amt closeto => payment E (t_sender tx) rcv amt closeto ad
   | BKeyreg vpk spk sppk vf vl vkd np => keyreg E (t_sender tx) (t_fee tx) vpk spk sppk vf vl vkd np ;;; ret ad
+  | BAcfg asset cp => asset_config E (t_sender tx) asset cp ctr ;;; ret ad
+  | BAxfer asset amt asender rcv closeto => asset_transfer E (t_sender tx) asset amt asender rcv closeto ;;; ret ad
+  | BAfrz asset acct frozen => asset_freeze (t_sender tx) asset acct frozen ;;; ret ad
   | BOther => fail E_APPLY
   end.
